@@ -46,6 +46,68 @@ def Holder.chisq (h : Holder α) (native : List (Row α)) : Option α :=
   | some o, some m => some (chiSquared o.spectrum m o.errorBar)
   | _, _ => none
 
+
+/-! The command-line program as a holder: `taurex/taurex.py:main`.  It reads an `[Observation]` (a file, or `self` = "observe
+    my own forward model through the `[Instrument]`"), a `[Binning]` section, picks a binner, runs the instrument and writes
+    the forward model binned with the binner it then holds next to the observation (`Output/Spectra/binned_*`, `Observed/*`).
+    Wherever the program binds its output to the observation (no `[Binning]` section or `bin_type = observed` with an
+    observation file; `taurex_spectrum = self` with whatever `[Binning]`) the binner is the one created from THAT observation. -/
+
+/-- the `[Binning]` section as `main` sees it (`ParameterParser.generate_binning`) -/
+inductive BinDecl where
+  | absent | native | observed | manual
+  deriving DecidableEq, Repr
+
+/-- the `[Observation]` section as `main` sees it (`ParameterParser.generate_observation`) -/
+inductive ObsDecl (α : Type) where
+  | absent
+  | given (o : Obs α)
+  | self
+
+/-- the binner `main` holds: the forward model's native binner, the grid declared in `[Binning]` (its content is not the
+    observation's business), or a binner created from an observation -/
+inductive ProgBinner (α : Type) where
+  | native
+  | manual
+  | ofObs (bins : List (TBin α))
+
+/-- what `main` holds when it writes the output -/
+structure Program (α : Type) where
+  observed : Option (Obs α)
+  binner : ProgBinner α
+
+/-- the binner chosen before the instrument runs (`none`: the program stops — `bin_type = observed` without an observation
+    object) -/
+def Program.choose (b : BinDecl) (o : ObsDecl α) : Option (ProgBinner α) :=
+  match b, o with
+  | .absent, .given ob => some (.ofObs ob.createBinner)
+  | .absent, _ => some .native
+  | .native, _ => some .native
+  | .observed, .given ob => some (.ofObs ob.createBinner)
+  | .observed, _ => none
+  | .manual, _ => some .manual
+
+/-- `main` up to the output.  `inst`: the rows `(wn, spectrum, noise, wn width)` the instrument returned (`none`: no
+    `[Instrument]`).  With `taurex_spectrum = self` the observation becomes
+    `ArraySpectrum([10000/wn, spectrum, noise, wnwidth_to_wlwidth(wn, width)])` and the binner is re-created from it. -/
+def Program.run (b : BinDecl) (o : ObsDecl α) (inst : Option (List (ORow α))) : Option (Program α) :=
+  match Program.choose b o with
+  | none => none
+  | some chosen =>
+    match o, inst with
+    | .self, none => none
+    | .self, some rows =>
+      let ob := load true (rows.map fromTaurex)
+      some { observed := some ob, binner := .ofObs ob.createBinner }
+    | .given ob, _ => some { observed := some ob, binner := chosen }
+    | .absent, _ => some { observed := none, binner := chosen }
+
+/-- `binning.bin_model(model.model())[1]` of the output (`none`: native / declared grid, not an observation's) -/
+def Program.binModel (p : Program α) (native : List (Row α)) : Option (List α) :=
+  match p.binner with
+  | .ofObs b => some (fluxBindown false Row.s native b)
+  | _ => none
+
 end
 
 end Taurex.Observation
